@@ -331,10 +331,12 @@ fn advance(rep: &mut Report, h: &mut Hist, b: &Value, factory: &Factory) -> Prog
         let t_start = now_ms();
         let outcome = run_real(&cfg, initial);
         let t_end = now_ms();
-        let fetched: BTreeSet<String> = h.bed.take_rsync_log().iter().map(|src| {
-            let rest = src.strip_prefix("rsync://").unwrap_or(src);
-            let mut it = rest.split('/');
-            format!("{}/{}", it.next().unwrap_or(""), it.next().unwrap_or(""))
+        // two validation threads may interleave their log lines: take every "rsync://host/module/" of a line
+        let fetched: BTreeSet<String> = h.bed.take_rsync_log().iter().flat_map(|line| {
+            line.split("rsync://").filter(|s| !s.is_empty()).map(|rest| {
+                let mut it = rest.split('/');
+                format!("{}/{}", it.next().unwrap_or(""), it.next().unwrap_or(""))
+            }).collect::<Vec<_>>()
         }).collect();
         let post = observe(&h.bed.cache);
         let ok = matches!(outcome, Outcome::Ok);
